@@ -8,6 +8,7 @@ import (
 	"github.com/cosmos/cosmos-proto/internal/zzverif/hz"
 	"google.golang.org/protobuf/proto"
 	"google.golang.org/protobuf/reflect/protoreflect"
+	"google.golang.org/protobuf/runtime/protoiface"
 )
 
 // build returns (dyn reference value, generated struct holding the same value, canonical string).
@@ -230,6 +231,33 @@ func evalC02(h *hz.H, sp *enum.Space, c enum.Case, b bounds, replayDet *bool, au
 	if !bytes.Equal(enc, ref) {
 		h.Violate(caseKey("C02", "bytes-differ", sp, c), fmt.Sprintf("deterministic encoding of %s differs from the reference:\n generated %x\n reference %x", sp.Label(c), clip(enc), clip(ref)), mkCase(sp, c, b, true, ""))
 		return
+	}
+	// the same bytes whatever buffer they are written into: MarshalAppend and ProtoMethods().Marshal into a kept buffer
+	// whose spare capacity still holds the bytes of an earlier use (0xA5), exactly large enough and larger
+	for _, spare := range []int{len(ref), len(ref) + 9} {
+		for route := 0; route < 2; route++ {
+			buf := bytes.Repeat([]byte{0xA5}, spare)[:0]
+			var out []byte
+			var oerr error
+			p := hz.Catch(func() {
+				if route == 0 {
+					out, oerr = proto.MarshalOptions{Deterministic: true}.MarshalAppend(buf, g)
+					return
+				}
+				m := g.ProtoReflect()
+				if meth := m.ProtoMethods(); meth != nil && meth.Marshal != nil {
+					var o protoiface.MarshalOutput
+					o, oerr = meth.Marshal(protoiface.MarshalInput{Message: m, Buf: buf, Flags: protoiface.MarshalDeterministic})
+					out = o.Buf
+				} else {
+					out = ref
+				}
+			})
+			if p != nil || oerr != nil || !bytes.Equal(out, ref) {
+				h.Violate(caseKey("C02", "bytes-differ-in-a-reused-buffer", sp, c), fmt.Sprintf("deterministic encoding of %s into a reused buffer (route %d: 0 MarshalAppend, 1 ProtoMethods().Marshal; %d spare bytes holding 0xA5) differs from the reference (panic %v, err %v):\n generated %x\n reference %x", sp.Label(c), route, spare, p, oerr, clip(out), clip(ref)), mkCase(sp, c, b, true, ""))
+				return
+			}
+		}
 	}
 	if h.WantSample() && len(c) > 1 {
 		h.Sample(map[string]interface{}{"value": sp.Label(c), "bytes_hex": fmt.Sprintf("%x", clip(ref))})
